@@ -42,6 +42,21 @@ class Generated:
 def find_src_line(repo, module, name):
     """best-effort: file and line of `fn name` in /repo/src for reporting"""
     cands = []
+    if module.startswith('__dep_'):
+        # a function of a dependency (rule D5): report the registry source of the version Cargo.lock pins
+        import glob
+        pkg = module.split('::')[0][6:].replace('_', '-')
+        try:
+            lock = open(os.path.join(repo, 'Cargo.lock')).read()
+        except OSError:
+            lock = ''
+        m = re.search(r'name = "' + re.escape(pkg) + r'"\nversion = "([^"]+)"', lock)
+        ver = m.group(1) if m else '?'
+        for c in glob.glob(os.path.expanduser(f'~/.cargo/registry/src/*/{pkg}-{ver}/src/' + '/'.join(module.split('::')[1:]) + '.rs')):
+            for k, ln in enumerate(open(c), 1):
+                if re.search(r'\bfn\s+' + re.escape(name) + r'\b', ln):
+                    return f'dependency {pkg} {ver}: src/{os.path.basename(c)}:{k}'
+        return f'dependency {pkg} {ver}'
     if module:
         base = os.path.join(repo, 'src', *module.split('::'))
         cands = [base + '.rs', os.path.join(base, 'mod.rs')]
@@ -67,7 +82,7 @@ def load_sidecar(unit, fn_name):
     while i < len(src):
         s = src[i].strip()
         if s.startswith('//@fn '):
-            name = s[6:].split()[1]
+            name = next((o[3:] for o in s[6:].split()[2:] if o.startswith('as=')), s[6:].split()[1])
             j = i + 1
             body = []
             while j < len(src) and src[j].strip() != '//@end':
@@ -195,6 +210,21 @@ def process_template(path, crate, repo, gen=None, depth=0):
             if body_e is not None and not re.fullmatch(rx_e, body_e):
                 gen.lost.append(f'expect-body {mod_e}::{fn_e}: the body is `{body_e[:120]}`, the extraction rules of this unit assume /{rx_e}/')
             gen.rule_counts['R4g'] = gen.rule_counts.get('R4g', 0) + 1
+        elif kw == 'expect-same-body':
+            # //@expect-same-body <modA> <fnA> impl=<re> <modB> <fnB> impl=<re>: rule D2 applied to a dependency -- the async twin (taken
+            # from the dependency's source file) must be the sync function modulo `async`/`.await`
+            a = arg.split()
+            try:
+                fa = crate.find_fn(a[0], a[1], a[2][5:])
+                fb = crate.find_fn(a[3], a[4], a[5][5:])
+                ta = [t for _, t in X.canon_lines(X.strip_attrs(list(fa['body'])))]
+                tb = [t for _, t in X.canon_lines(X.strip_attrs(list(fb['body'])))]
+                norm = lambda ls: re.sub(r'\s*([^\w\s])\s*', r'\1', re.sub(r'\s+', ' ', ' '.join(ls))).replace('.await', '').strip()
+                if norm(ta) != norm(tb):
+                    gen.lost.append(f'expect-body {a[0]}::{a[1]}: differs from {a[3]}::{a[4]} by more than `.await` (rule D2 for the dependency)')
+            except ExtractionError as e_e:
+                gen.lost.append(f'expect-body {a[0]}::{a[1]}: {e_e}')
+            gen.rule_counts['D2dep'] = gen.rule_counts.get('D2dep', 0) + 1
         elif kw == 'stub':
             # //@stub <unit> <fn> [as=<name>] : the contract PROVED for <fn> in unit <unit>, as an external_body declaration
             a = arg.split()
@@ -223,7 +253,7 @@ def process_template(path, crate, repo, gen=None, depth=0):
                     j += 1
                 if j >= len(src):
                     raise ExtractionError(f'{rel}:{i+1}: //@fn without //@end')
-                sidecars[arg.split()[1]] = body
+                sidecars[next((o[3:] for o in arg.split()[2:] if o.startswith('as=')), arg.split()[1])] = body
             else:
                 # //@twin <module> <name> of=<other> [sub=/re/=>repl ...] : same sidecar as the twin, textual substitutions
                 parts = arg.split(None, 2)
@@ -258,7 +288,7 @@ def process_template(path, crate, repo, gen=None, depth=0):
             fn = crate.find_fn(sc.module, sc.name, sc.impl_re)
             log = X.RuleLog()
             lost = []
-            lkey = f'{sc.module}::{sc.name}'
+            lkey = f"{sc.module}::{sc.opts.get('as') or sc.name}"
             if os.environ.get('VERIF_RECORD_LOCALS') == '1':
                 RECORDED_LOCALS[lkey] = X.binders(X.strip_attrs(list(fn['body'])))
                 woven = X.weave(fn, sc, log, lost, gen.unit_rewrites)
